@@ -42,6 +42,20 @@
    (harness/chanwake.py) compares the label sequence of every thread with the
    trace of the real code at attribute granularity.
 
+   A step fires, in the alignment with real traces, when the LAST of its labels is observed:
+   that label is the one with the effect; the labels before it are reads whose value cannot
+   change in between (lock held) or is not used.  ENV answers: every send() gets SOk n /
+   SZero (EWOULDBLOCK) / SDisc (errno in _DISCONNECTED: handle_close when do_close) / SErr
+   (any other exception, e.g. EHOSTUNREACH, or AttributeError on a socket that is gone);
+   recv() delivers the next client segment or fails; CWApp is the application's next
+   write_soon (or the end of the task with close_on_finish).
+
+   QUIESCENCE.  [quiescent] = no thread of the server is enabled (Proof/ChanWake.v shows that
+   then nobody is stuck on a lock); [quiescent_parked], [quiescent_app] (Proof/ChanWakeInv.v)
+   = the I/O thread sleeps in select and every worker is parked on queue_cv / outbuf_lock
+   (resp. or sits inside the application).  [c05_ok] is the predicate of the property.
+   [taint] is ghost state marking the runs in which a worker may execute send_continue (F18).
+
    ABSTRACTED.  Bytes are counts: [pend] is the number of bytes in the output
    buffers (a FIFO by C17), [total] the attribute total_outbufs_len (they
    differ only through the F18 race).  A request is a token ([nreq] =
